@@ -9,7 +9,6 @@ tables regenerated from lexact.c / expscan.l) meet here.  Lemmas: `StepModel/Exp
 namespace StepModel.Express
 open StepModel.Generated
 
-/-- the relation `Lexes` is what the executable scanner `lexN` computes, for any fuel not smaller than the number of tokens -/
 theorem lexTok_head (c : Char) (r : List Char) (x : Tok × List Char) (h : lexTok (c :: r) = some x) : isWsC c = false := by
   cases hw : isWsC c with
   | false => rfl
@@ -33,6 +32,7 @@ theorem dropWhile_all (p : Char → Bool) (l : List Char) (h : l.all p = true) :
     simp only [List.all_cons, Bool.and_eq_true] at h
     simp [List.dropWhile, h.1, ih h.2]
 
+/-- the relation `Lexes` is what the executable scanner `lexN` computes, for any fuel not smaller than the number of tokens -/
 theorem lexN_of_lexes {cs : List Char} {ts : List Tok} (h : Lexes cs ts) : ∀ n, ts.length ≤ n → lexN n cs = some ts := by
   induction h with
   | done w hw =>
@@ -42,7 +42,7 @@ theorem lexN_of_lexes {cs : List Char} {ts : List Tok} (h : Lexes cs ts) : ∀ n
     | succ n =>
       have : w.dropWhile isWsC = [] := dropWhile_all _ w hw
       simp [lexN, this]
-  | tok w cs t r ts hw hl _ ih =>
+  | tok w cs t r ts hw hl _ _ ih =>
     intro n hn
     cases n with
     | zero => simp at hn
@@ -54,6 +54,15 @@ theorem lexN_of_lexes {cs : List Char} {ts : List Tok} (h : Lexes cs ts) : ∀ n
         have hd := dropWhile_ws_append w (c :: r0) hw c r0 rfl hc
         simp only [lexN, hd, hl, ih n (by simpa using hn)]
         rfl
+
+theorem lexes_length {cs : List Char} {ts : List Tok} (h : Lexes cs ts) : ts.length ≤ cs.length := by
+  induction h with
+  | done w _ => simp
+  | tok w cs t r ts _ _ hlen _ ih => simp only [List.length_cons, List.length_append]; omega
+
+/-- … and so what `lex` (fuel: the length of the text) returns -/
+theorem lex_of_lexes {cs : List Char} {ts : List Tok} (h : Lexes cs ts) : lex cs = some ts :=
+  lexN_of_lexes h _ (by have := lexes_length h; omega)
 
 /-- the initial state of the layout engine satisfies the invariant, with nothing read so far -/
 theorem K_init (st : PState) (h0 : st.pieces = []) (hs : st.spaceLast = false) : K st [] none := by
@@ -80,22 +89,20 @@ theorem C07_lex_layout_partial (e : Expr) (hw : lexWF e) (p : Bool) (q : Option 
   have := hK'.2.1 [] [] (by cases lt' <;> trivial) (Lexes.done [] rfl)
   simpa using this
 
-/-- the same for the executable scanner, from the initial state: `lexN` with any fuel not below the number of tokens returns
-exactly `toks e` -/
+/-- the same for the executable scanner `lex`, from the initial state (any line length and indent): it returns exactly `toks e` -/
 theorem C07_lex_layout_exec_partial (e : Expr) (hw : lexWF e) (p : Bool) (q : Option BinOp) (st : PState)
-    (h0 : st.pieces = []) (hs : st.spaceLast = false) (n : Nat) (hn : (toks Shared.clean e p q).length ≤ n) :
-    lexN n (run st (exprFrags Shared.clean e p q)).text = some (toks Shared.clean e p q) := by
+    (h0 : st.pieces = []) (hs : st.spaceLast = false) :
+    lex (run st (exprFrags Shared.clean e p q)).text = some (toks Shared.clean e p q) := by
   have := C07_lex_layout_partial e hw p q st [] (K_init st h0 hs)
-  exact lexN_of_lexes this n (by simpa using hn)
+  exact lex_of_lexes (by simpa using this)
 
 /-- **`parse ∘ lex ∘ layout ∘ print` is the identity, at every line length** (expressions as in `C07_lex_layout_partial` that
 the parser can build, `wfE`): the characters the layout engine writes for `e` are read by the scanner as tokens that the
 precedence parser turns back into `e` up to the regrouping of associative chains (`norm`) — the statement of
 `C07_parse_print`, now from the character level -/
-theorem C07_char_roundtrip_partial (e : Expr) (hw : wfE e) (hl : lexWF e) (st : PState) (h0 : st.pieces = []) (hs : st.spaceLast = false)
-    (n : Nat) (hn : (toks Shared.clean e false none).length ≤ n) :
-    (lexN n (run st (exprFrags Shared.clean e false none)).text).bind parse = some (norm e) := by
-  rw [C07_lex_layout_exec_partial e hl false none st h0 hs n hn]
+theorem C07_char_roundtrip_partial (e : Expr) (hw : wfE e) (hl : lexWF e) (st : PState) (h0 : st.pieces = []) (hs : st.spaceLast = false) :
+    (lex (run st (exprFrags Shared.clean e false none)).text).bind parse = some (norm e) := by
+  rw [C07_lex_layout_exec_partial e hl false none st h0 hs]
   exact C07_parse_print e hw
 
 /-- grammar token of a punctuation/operator token of the model -/
